@@ -67,7 +67,7 @@ class Software:
             other = '{}{}'.format(other.version, other.patch or '')
         else:
             other = str(other)
-        mx = re.match(r'^([\d\.]+\d+)(.*)$', other)
+        mx = re.match(r'^([\d\.]*\d+)(.*)$', other)  # The version part may be a single number (i.e.: '9p1').
         if mx is not None:
             oversion, opatch = mx.group(1), mx.group(2).strip()
         else:
